@@ -63,6 +63,11 @@ def universe():
     u += [{'$sr': [[0, 1], [None, 'a'], 'object']}, {'$sr': [[0, 1], [nan(30), 'a'], 'object']}, {'$sr': [[0, 1], [None, None], 'object']}, {'$sr': [[0, 1], [nan(31), nan(32)], 'object']},
           {'$frame': [[0, 1], ['a'], [[None], [1]], 'object']}, {'$frame': [[0, 1], ['a'], [[nan(33)], [1]], 'object']}, {'$sr': [[0, 1], [nan(34), nan(35)], 'float64']},
           {'$sr': [[0, 1], [None, None], 'datetime64[ns]']}, {'$sr': [[0, 1], [None, '2020-01-01'], 'datetime64[ns]']}]
+    # labels that differ although their raw values coincide: tz-aware vs naive stamps, stamps vs their epoch-ns integers
+    ns = [1577836800000000000, 1577923200000000000, 1578009600000000000]
+    u += [{'$tsz': [IDX, [1.0, 2.0, 3.0], 'UTC']}, {'$tsz': [IDX, [1.0, 2.0, 3.0], 'US/Eastern']}, {'$sr': [ns, [1.0, 2.0, 3.0], 'float64']}, {'$sr': [[{'$dt': i} for i in IDX], [1.0, 2.0, 3.0], 'float64']}]
+    # scalars whose == raises inside numpy (out-of-range dates, ints beyond 64 bits against numpy scalars): eq is still a boolean
+    u += [{'$np': ['datetime64[D]', '9999-12-31']}, {'$np': ['datetime64[D]', '1000-01-01']}, 2 ** 70, -2 ** 70, [{'$np': ['datetime64[D]', '9999-12-31']}], {'a': 2 ** 70}, {'$np': ['datetime64[ns]', '2020-01-01T00:00:00']}]
     return u
 
 
